@@ -40,6 +40,11 @@ theorem cast_val_of_lt (e : E) (t : JT) (h : e.val < 2 ^ t.bits) : (cast e t).va
   · rfl
   · simp only; exact Nat.mod_eq_of_lt h
 
+theorem cast_ty (e : E) (t : JT) : (cast e t).ty = t := by
+  unfold cast; split
+  · assumption
+  · rfl
+
 /-- the shifted fields sit on top of each other: field `i` is `x * 2^off` with `x < 2^w`, the next one starts at
     `off + w`; each fits its own Java type -/
 def Stacked : List E → Nat → Nat → Prop
@@ -130,7 +135,7 @@ theorem fitting_rank (w : Nat) (h : w ≤ 32) : (fitting w).rank ≤ 2 := by
 
 /-- the fields of a group, from offset `off`: what the reference adds up is what the emitted Java stacks -/
 theorem pack_ref (all : Items) (pl : Nat) (v : Value) :
-    ∀ (fs : List BitField) (off acc X : Nat), fs.all bfOkJ = true → off + chunkBits fs ≤ 32 →
+    ∀ (fs : List BitField) (off acc X : Nat), fs.all bfOkE = true → off + chunkBits fs ≤ 32 →
       Pdlv.encChunkFields true all pl v fs off acc = .ok X →
       ∃ es, packFields all pl v fs off = .ok es ∧ Stacked es off (off + chunkBits fs) ∧ X = acc + sumVals es ∧
         ∀ e ∈ es, e.ty.rank ≤ 2
@@ -160,7 +165,7 @@ theorem pack_ref (all : Items) (pl : Nat) (v : Value) :
         · exact h4 e' he'
     cases f with
     | scalar id w =>
-      simp only [bfOkJ, Bool.and_eq_true, decide_eq_true_eq] at hw
+      simp only [bfOkE, bfOkJ, Bool.and_eq_true, decide_eq_true_eq] at hw
       obtain ⟨x, hx, h2⟩ := bind_ok _ _ _ h
       split at h2
       · cases h2
@@ -195,7 +200,7 @@ theorem pack_ref (all : Items) (pl : Nat) (v : Value) :
             · simp [JT.rank]
             · exact fitting_rank w hw32
     | enumTy id ty e =>
-      simp only [bfOkJ, Bool.and_eq_true, decide_eq_true_eq] at hw
+      simp only [bfOkE, bfOkJ, Bool.and_eq_true, decide_eq_true_eq] at hw
       obtain ⟨x, hx, h2⟩ := bind_ok _ _ _ h
       split at h2
       · rename_i hok
@@ -212,7 +217,7 @@ theorem pack_ref (all : Items) (pl : Nat) (v : Value) :
         · simp only [sym]; exact fitting_rank e.width hw32
       · cases h2
     | fixed w c =>
-      simp only [bfOkJ, Bool.and_eq_true, decide_eq_true_eq] at hw
+      simp only [bfOkE, bfOkJ, Bool.and_eq_true, decide_eq_true_eq] at hw
       have hte : toNum all pl v (.fixed w c) = .ok (num c) := by simp [toNum, hw.1.2]
       have hc32 : c < 2 ^ 32 := by have := hw.1.2; omega
       refine fin _ c hte (by simpa [BitField.width] using hw.1.1.2) ?_ ?_ (by simp [num, JT.rank]) ?_
@@ -221,20 +226,84 @@ theorem pack_ref (all : Items) (pl : Nat) (v : Value) :
       · simp only [num, JT.bits]; exact Nat.mod_lt _ (by decide)
       · intro hl; simp only [num, Option.some.injEq] at hl; exact hl
     | reserved w =>
-      simp only [bfOkJ, decide_eq_true_eq] at hw
+      simp only [bfOkE, bfOkJ, decide_eq_true_eq] at hw
       have hte : toNum all pl v (.reserved w) = .ok (num 0) := by simp [toNum]
       refine fin _ 0 hte (Nat.two_pow_pos _) (by simp [num]) (by simp [num, JT.bits]) (by simp [num, JT.rank]) (fun _ => rfl)
         (by simpa [BitField.width] using hw.1) (by simpa [BitField.width] using h)
-    | flag id o => simp [bfOkJ] at hw
-    | size t w m => simp [bfOkJ] at hw
-    | count t w => simp [bfOkJ] at hw
-    | elemSize t w => simp [bfOkJ] at hw
+    | flag id o => simp [bfOkE, bfOkJ] at hw
+    | size t w m =>
+      simp only [bfOkE, Bool.and_eq_true, decide_eq_true_eq] at hw
+      obtain ⟨s0, hs, h2⟩ := bind_ok _ _ _ h
+      simp only [Bool.true_or, ↓reduceIte] at h2
+      split at h2
+      · cases h2
+      · rename_i hm
+        have hlt : s0 + m < 2 ^ w := by
+          simp only [maskBits] at hm
+          have := Nat.two_pow_pos w
+          omega
+        have hw32 : ¬ w > 32 := by omega
+        have hte : toNum all pl v (.size t w m) = .ok (cast (sym .int (s0 + m)) (fitting w)) := by
+          simp only [toNum, hw32, ↓reduceIte, hs, Outcome.bind]
+          rw [if_neg (by omega)]
+        have h232 : s0 + m < 2 ^ 32 := Nat.lt_of_lt_of_le hlt (Nat.pow_le_pow_right (by decide) hw.1.2)
+        have hsv : (sym .int (s0 + m)).val = s0 + m := by simp only [sym, JT.bits]; exact Nat.mod_eq_of_lt h232
+        have hcv : (cast (sym .int (s0 + m)) (fitting w)).val = s0 + m := by
+          rw [cast_val_of_lt _ _ (by rw [hsv]; exact Nat.lt_of_lt_of_le hlt (Nat.pow_le_pow_right (by decide) (fitting_bits w (by omega)))), hsv]
+        refine fin _ (s0 + m) hte (by simpa [BitField.width] using hlt) hcv ?_ ?_ ?_ (by simpa [BitField.width] using hw.1.1)
+          (by simpa [BitField.width] using h2)
+        · rw [hcv, cast_ty]
+          exact Nat.lt_of_lt_of_le hlt (Nat.pow_le_pow_right (by decide) (fitting_bits w (by omega)))
+        · rw [cast_ty]; exact fitting_rank w hw.1.2
+        · intro hl
+          have : (cast (sym .int (s0 + m)) (fitting w)).lit = none := by
+            unfold cast; split <;> rfl
+          rw [this] at hl; cases hl
+    | count t w =>
+      simp only [bfOkE, Bool.and_eq_true, decide_eq_true_eq] at hw
+      obtain ⟨vs, hvs, h2⟩ := bind_ok _ _ _ h
+      split at h2
+      · cases h2
+      · rename_i hm
+        simp only [true_or, true_and] at hm
+        have hlt : vs.length < 2 ^ w := by
+          simp only [maskBits] at hm
+          have := Nat.two_pow_pos w
+          omega
+        have hbk : vs.length % 2 ^ backingOf w = vs.length := by
+          apply Nat.mod_eq_of_lt
+          exact Nat.lt_of_lt_of_le hlt (Nat.pow_le_pow_right (by decide) (backingOf_ge w (by omega)))
+        rw [hbk] at h2
+        have hw32 : ¬ w > 32 := by omega
+        have hte : toNum all pl v (.count t w) = .ok (cast (sym .int vs.length) (fitting w)) := by
+          simp only [toNum, hw32, ↓reduceIte, hvs, Outcome.bind]
+          rw [if_neg (by omega)]
+        have h232 : vs.length < 2 ^ 32 := Nat.lt_of_lt_of_le hlt (Nat.pow_le_pow_right (by decide) hw.1.2)
+        have hsv : (sym .int vs.length).val = vs.length := by simp only [sym, JT.bits]; exact Nat.mod_eq_of_lt h232
+        have hcv : (cast (sym .int vs.length) (fitting w)).val = vs.length := by
+          rw [cast_val_of_lt _ _ (by rw [hsv]; exact Nat.lt_of_lt_of_le hlt (Nat.pow_le_pow_right (by decide) (fitting_bits w (by omega)))), hsv]
+        refine fin _ vs.length hte (by simpa [BitField.width] using hlt) hcv ?_ ?_ ?_ (by simpa [BitField.width] using hw.1.1)
+          (by simpa [BitField.width] using h2)
+        · rw [hcv, cast_ty]
+          exact Nat.lt_of_lt_of_le hlt (Nat.pow_le_pow_right (by decide) (fitting_bits w (by omega)))
+        · rw [cast_ty]; exact fitting_rank w hw.1.2
+        · intro hl
+          have : (cast (sym .int vs.length) (fitting w)).lit = none := by
+            unfold cast; split <;> rfl
+          rw [this] at hl; cases hl
+    | elemSize t w => simp [bfOkE, bfOkJ] at hw
 
 /-- a whole group -/
-theorem chunk_ref (en : Endian) (all : Items) (pl : Nat) (v : Value) (fs : List BitField) (hw : chunkWf fs = true)
+theorem bfOkE_of_J (fs : List BitField) (h : fs.all bfOkJ = true) : fs.all bfOkE = true := by
+  rw [List.all_eq_true] at h ⊢
+  intro f hf
+  have := h f hf
+  cases f <;> simp_all [bfOkE, bfOkJ]
+
+theorem chunk_ref (en : Endian) (all : Items) (pl : Nat) (v : Value) (fs : List BitField)
+    (hw : fs.all bfOkE = true ∧ chunkBits fs ≤ 32)
     (X : Nat) (h : Pdlv.encChunkFields true all pl v fs 0 0 = .ok X) :
     encChunk en all pl v fs = .ok (putUint en (chunkBits fs) X) := by
-  simp only [chunkWf, Bool.and_eq_true, decide_eq_true_eq] at hw
   obtain ⟨es, h1, h2, h3, h4⟩ := pack_ref all pl v fs 0 0 X hw.1 (by omega) h
   have hnot : ¬ chunkBits fs > 64 := by omega
   simp only [encChunk, hnot, ↓reduceIte, h1, Outcome.bind, putGroup, Outcome.ok.injEq]
@@ -329,11 +398,6 @@ theorem mask_exact (W chunk off w : Nat) (hW : W = 8 ∨ W = 16 ∨ W = 32) (hc 
       rw [hand]
       exact Nat.lt_of_lt_of_le (Nat.mod_lt _ (Nat.two_pow_pos w)) (Nat.pow_le_pow_right (by decide) (fitting_bits w (by omega)))
     rw [cast_val_of_lt _ _ hlt, hand, Nat.mod_mod]
-
-theorem cast_ty (e : E) (t : JT) : (cast e t).ty = t := by
-  unfold cast; split
-  · assumption
-  · rfl
 
 /-- the masked branch: the field's bits, typed `fitting w` -/
 theorem mask_masked (W chunk off w : Nat) (hW : W = 8 ∨ W = 16 ∨ W = 32) (hc : chunk < 2 ^ W) (hw : 0 < w)
